@@ -75,8 +75,9 @@ claim(
 claim(
     "C20",
     "runtime monitor on a virtual-time loop in four strata (S4: concurrent warm-up without eviction, then sequential eviction pressure vs a reference LRU ordered by use): S1 sequential lock-step differential vs a reference LRU (functools.lru_cache / reference with ttl), S2 strict concurrent history oracle (unique tokens, overlap, staleness, cross-key blocking, retention), S3 same oracle with F3 symptoms classified by mechanism precondition",
-    "Held (apart from the listed known finding F3) on every executed history: seeded sequential sequences over maxsize/typed/ttl "
-    "with virtual clock jumps, seeded concurrent histories with suspensions, failures, scope and native cancellations.",
+    "Held (apart from the listed known findings F3, F16) on every executed history: seeded sequential sequences over maxsize/typed/ttl "
+    "with virtual clock jumps, seeded concurrent histories with suspensions, failures, scope and native cancellations, cache_clear() agents, "
+    "virtual sleeps that let entries expire under concurrent callers.",
     "functools.lru_cache as reference where it applies; retained results counted via the public lru_cache_items RunVar; cache_info() not judged concurrently",
     "DESIGN.md 5/C20",
 )
@@ -129,7 +130,7 @@ claim("C17", "fault enumeration by runtime monitoring: two real TLSStream endpoi
       "OpenSSL via ssl, trustme certificates; the Wire delivers in order and a cut drops everything after the offset; the transport's send() takes 1-4 cycles and rejects a second concurrent sender like SocketStream does; after a detected truncation a second receive and a send are issued",
       "DESIGN.md 5/C17")
 
-claim("C18", "runtime monitor on real sockets: position-dependent byte-stream oracle, chunk-size bounds, in-flight-bytes bound sampled while the reader is stalled (SO_SNDBUF/SO_RCVBUF pinned), EOF / closed-stream / busy-direction probes",
+claim("C18", "runtime monitor on real sockets: position-dependent byte-stream oracle, chunk-size bounds, in-flight-bytes bound sampled while the reader is stalled (SO_SNDBUF/SO_RCVBUF pinned), EOF / closed-stream / busy-direction probes, close by a third task under blocked receive()/send()",
       "Held on every executed session: TCP loopback and UNIX sockets on asyncio and uvloop, both role assignments (accepted side reading / connecting side reading), message sizes 1 B..256 KiB and 1-2 MiB stall sessions, reader stalls before the first receive and mid-stream, full duplex, EOF by send_eof and aclose.",
-      "Linux loopback/AF_UNIX semantics; real time: sessions without completion inside the watchdog are inconclusive; sessions over un-shrunk kernel buffers judge integrity/order only (no fixed capacity for the in-flight bound)",
+      "Linux loopback/AF_UNIX semantics; real time: sessions without completion inside the watchdog are inconclusive - except a receive()/send() still blocked 15 s after the local close, which the statement forbids (never blocking); sessions over un-shrunk kernel buffers judge integrity/order only (no fixed capacity for the in-flight bound)",
       "DESIGN.md 5/C18")
